@@ -67,7 +67,12 @@ def sites(prog):
                         def f(p, path=path, i=i, w=w):
                             _get(p, path)["args"][i] = copy.deepcopy(w)
                         yield ("wrong-argument-type", "argument %d of %s" % (i + 1, fn["name"]), f)
-            if node["args"]:
+            # (axllib's Order exports x < y also with the result (Boolean, %) -- for chains a <= b < c -- and a value of
+            # several components spreads over parameters: f(x < y) may be a well-typed call of f(Boolean, T).  The typing
+            # rules do not model that export, so no verdict is asked where a comparison would end the shortened list.)
+            def _cmp(a):
+                return isinstance(a, dict) and a.get("e") == "prim" and a["op"].split(".")[1] in ("lt", "le", "gt", "ge")
+            if node["args"] and not any(_cmp(a) for a in node["args"][:-1]):
                 def f(p, path=path):
                     _get(p, path)["args"].pop()
                 yield ("wrong-argument-count", "one argument less for %s" % fn["name"], f)
